@@ -31,3 +31,12 @@ def schemaOk (sets : List (List Nat × Nat × Bool × List (List Nat))) : Bool :
 theorem schema_ok : schemaOk Generated.sets = true := by decide +kernel
 
 end Dlis.Obligations
+
+namespace Dlis.Obligations
+open Dlis
+/-- the attribute schema of every object type (label, keyword, kind, representation code, multiplicity flags,
+units, enumeration / referenced type) is the pinned one -/
+theorem attrs_eq : Generated.attrs = Standard.attrs := by rfl
+/-- the enumerations high-compatibility mode enforces are the pinned ones -/
+theorem enums_eq : Generated.enums = Standard.enums := by rfl
+end Dlis.Obligations
